@@ -231,6 +231,31 @@ def eval_case(case, drv):
             return "corr", {"impl": got, "model": model}
         return None, {"oriented": len(parse_graph(got)["D"]) - len(g["D"]), "left": len(parse_graph(got)["U"])}
     if kind == "rule":
+        # The four rule functions are private helpers: the property speaks of the closure.  A disagreement of a
+        # single rule call with the model (or an unsound single call) is therefore confirmed at closure level on
+        # the same graph and on the graph the call produced; only then is it reported (with that closure case).
+        v, d = _eval_rule(case, g, fam, comp, drv)
+        if v in ("violation", "corr"):
+            follow = [g]
+            try:
+                follow.append(pdag_of_graphstr(d["impl"][2:], g.get("N")))
+            except Exception:
+                pass
+            for g2 in follow:
+                c2 = {"kind": "pdag", "g": g2, "fam": fam, "src": "rule-followup"}
+                try:
+                    v2, d2 = eval_case(c2, drv)
+                except Exception:
+                    continue
+                if v2 in ("violation", "corr"):
+                    return v2, dict(d2, via_rule_call=d, _case=c2)
+            return None, {"oriented": 0, "left": 0, "private_rule_differs": True}
+        return v, d
+    raise ValueError(kind)
+
+
+def _eval_rule(case, g, fam, comp, drv):
+    if True:
         r, i, j = case["r"], case["i"], case["j"]
         got = run_impl(g, fam, r, i, j)
         model = drv.ask(pline("c08rule", g, " r=%d i=%d j=%d" % (r, i, j)))
@@ -249,7 +274,6 @@ def eval_case(case, drv):
         if got != model:
             return "corr", {"impl": got, "model": model, "rule": r}
         return None, {"oriented": int(changed), "left": 0}
-    raise ValueError(kind)
 
 
 def simple(g):
@@ -492,6 +516,11 @@ def run(ctx):
         if v == "skip":
             ev.count("skipped:" + case["kind"])
             continue
+        if isinstance(d, dict) and "_case" in d:      # a rule-call disagreement confirmed at closure level
+            d = dict(d)
+            case = dict(d.pop("_case"), src=case["src"])
+        if isinstance(d, dict) and d.get("private_rule_differs"):
+            ev.count("private-rule-call-differs-closure-ok")
         nt = isinstance(d, dict) and d.get("oriented", 0) > 0
         ev.case(case, nontrivial=bool(nt or v), sample_every=3000)
         ev.count("src:" + case["src"])
